@@ -14,7 +14,7 @@ EXPLANATION = (
     "(effect analysis shared with C13). R2 which end: the node handed out by peek_lru*/get_lru*, removed by remove_lru and chosen as victim by "
     "every eviction in the crate derives from (*tail).prev; peek_mru*/get_mru* from (*head).next; attach links next to head only. R3 resize: "
     "the only early return is guarded by cap == self.cap; the loop runs while map.len() > cap, calls remove_lru once per iteration and counts "
-    "it; self.cap := cap on every other path; the count is returned. R4: a put of a resident key never evicts. That repeated detach/attach "
+    "it; self.cap := cap on every other path, after the last eviction (an unwinding hook leaves the old bound in force); the count is returned. R4: a put of a resident key never evicts. That repeated detach/attach "
     "realise the move-to-front permutation for every history needs the semantics of the four pointer stores and is inferred, not checked."
 )
 TRUSTED_BASE = ["as C03", "attach inserts next to head (checked structurally: it never mentions tail)"]
@@ -173,6 +173,21 @@ def victims(cx, chk, cfg, F):
     chk.floor("C06.R2", "eviction events in %s" % cfg, n, 50)
 
 
+def count_by_length(ret, k, w):
+    """the count returned as `len before - len after`: the map's length at entry minus its length k modifications later, all of them
+    removals (k entries left the cache, none was added)"""
+    r = ret[3] if isinstance(ret, tuple) and ret[0] == "cast" else ret
+    if not (isinstance(r, tuple) and r[0] == "bin" and r[1] == "Sub"):
+        return False
+    a, b = r[2], r[3]
+    ML = ("H", SELF, ("map",))
+    if not (isinstance(a, tuple) and isinstance(b, tuple) and a[0] == "len" and b[0] == "len" and a[1] == ML and b[1] == ML):
+        return False
+    if any(ev[1] == "index" for ev in w.events_on):
+        return False
+    return a[2] == 0 and b[2] == k and len([ev for ev in w.events_on if ev[1] == "unindex"]) == k
+
+
 def resize(cx, chk, cfg, F):
     f = composite.cache_method(F, RAW, "resize", "cache_api::ResizableCache")
     CAP = ("load", ("H", SELF, ("cap",)), 0)
@@ -212,7 +227,9 @@ def resize(cx, chk, cfg, F):
             bad("loop-condition", "the eviction loop is not `while map.len() > cap` (condition facts on a path with %d evictions: %s)" % (k, loops), removes[0].get("ln") if removes else None)
         if len(stores) != 1 or stores[0]["val"] != ARG:
             bad("cap-store", "self.cap is not set to the new capacity exactly once (%s)" % [fmt_val(s["val"]) for s in stores])
-        if p.ret != ("const", "u64", str(k)):
+        if len(stores) == 1 and deps and p.events.index(stores[0]) < max(d[0] for d in deps):
+            bad("cap-store-early", "self.cap is lowered before the entries above it have been evicted: a hook or destructor that unwinds out of the loop leaves len() > cap()", stores[0].get("ln"))
+        if p.ret != ("const", "u64", str(k)) and not count_by_length(p.ret, k, w):
             bad("count", "a path with %d evictions returns %s" % (k, fmt_val(p.ret)))
         for d in deps:
             el = end_load(d[1])
